@@ -69,6 +69,15 @@ def validation_set(rng, X, n, mode):
         y = np.tile(np.array([1] * a + [-1] * b), g)
         p = rng.permutation(len(y))
         return np.ascontiguousarray(P[p]), y[p]
+    elif mode == 'near':
+        # distances that differ by a relative 1e-7 … 1e-6 (distinct numbers, far above rounding): pairs along one
+        # direction, so that any Mahalanobis metric keeps their distances proportional to the chosen lengths
+        u = rng.randn(dd); x0 = lo + (hi - lo) * rng.rand(dd)
+        g = n // 3 + 1
+        lens = np.repeat(rng.uniform(0.5, 2.0, size=g), 3)[:n] * (1 + rng.uniform(1e-7, 1e-6, size=n) * rng.choice([-1, 1], size=n))
+        if rng.rand() < 0.4:
+            lens = lens * 1e-9                             # everything in very small units
+        P = np.stack([np.tile(x0, (n, 1)), x0 + lens[:, None] * u], axis=1)
     else:  # grid: few base pairs, many duplicates
         base = np.round(lo + (hi - lo) * rng.rand(3, 2, dd))
         P = base[rng.randint(0, 3, size=n)]
@@ -94,7 +103,7 @@ def key_of(strategy, d):
 def run(R, tier, seed, driver_ok):
     quiet()
     rng = np.random.RandomState(seed + 1616)
-    nsets = 25 if tier == 'quick' else 200
+    nsets = 30 if tier == 'quick' else 240
     R.rule = ('ITML/MMC/SDML fitted; validation sets (distinct / tied / zero / grid distances, conflicting labels) × strategy × '
               'beta ∈ {0,.5,1,2,random} × min_rate ∈ {0,.25,.5,.75,1,random}; via calibrate_threshold and fit(calibration_params). '
               'case = (distances, labels, strategy, parameter); non-trivial = both labels present and ≥2 distinct predictions vectors')
@@ -108,7 +117,7 @@ def run(R, tier, seed, driver_ok):
     ninf = 0
     for si in range(nsets):
         name, est, X, y, args = ests[int(rng.randint(len(ests)))]
-        mode = ['distinct', 'ties', 'zeros', 'grid', 'diag'][si % 5]
+        mode = ['distinct', 'ties', 'zeros', 'grid', 'diag', 'near'][si % 6]
         n = int(rng.randint(4, 24))
         P, yv = validation_set(rng, X, n, mode)
         n = len(yv)
